@@ -17,7 +17,7 @@ if note:
     conf += " (" + note + ")"
 meta = {
     "property": prop,
-    "round": {"b": 2, "c": 3, "d": 4}.get(name[-1], 1),
+    "round": {"b": 2, "c": 3, "d": 4, "e": 5}.get(name[-1], 1),
     "breaks": a.get("summary", ""),
     "needs_to_manifest": a.get("needs", ""),
     "files": a.get("files", []),
